@@ -137,6 +137,22 @@ func TestLeafSweep(t *testing.T) {
 			}
 			cLeaf.Class("leaf-type:" + n.Type.String())
 		}
+		// every list-of-structs setting, written with 0,1,2,3 partially written elements
+		for _, n := range k.Lists {
+			i++
+			if !mine(i) {
+				continue
+			}
+			for elems := 0; elems <= 3; elems++ {
+				for r := 0; r < per; r++ {
+					ws := example(func(t *rapid.T) []Write { return genFocusedList(t, k, n.key(), elems) }, i*131+elems*17+r)
+					s, _ := minimal(k, ws)
+					s.Sweep = fmt.Sprintf("list %s %s x%d", k.name(), n.key(), elems)
+					sweepCase(t, cLeaf, s)
+				}
+			}
+			cLeaf.Class("list-type:" + n.Type.String())
+		}
 		for _, n := range k.Nodes {
 			if n.Kind == kSkipped && firstShard() {
 				cLeaf.Exclude("not written: " + n.Why)
@@ -290,7 +306,7 @@ func genCase(t *rapid.T) Script {
 // TestCompose: random compositions — several components, many written leaves,
 // and (mostly) one mistake.
 func TestCompose(t *testing.T) {
-	vt.Run(t, cCompose, vt.N(9000, 200000), genCase, func(s Script) (bool, string, *vt.Finding) {
+	vt.Run(t, cCompose, vt.N(8000, 180000), genCase, func(s Script) (bool, string, *vt.Finding) {
 		return evaluate(cCompose, s)
 	})
 }
